@@ -755,3 +755,45 @@ pub fn catch<R>(f: impl FnOnce() -> R) -> Result<R, String> {
 	}
 }
 
+
+// ---------------------------------------------------------------------------------------------
+// chain truth
+
+/// One output of the chain's UTXO set that belongs to a seed (found by rewinding its range
+/// proof with the seed's keychain — independent of any wallet record)
+#[derive(Clone, Debug)]
+pub struct Owned {
+	pub commit: pedersen::Commitment,
+	pub value: u64,
+	pub key_id: Identifier,
+	pub height: u64,
+	pub is_coinbase: bool,
+	pub mmr_index: u64,
+}
+
+/// every unspent output on the current chain that rewinds with the keychain of `seed_name`
+pub fn chain_owned(node: &Node, seed_name: &str) -> Vec<Owned> {
+	use grin_core::libtx::proof;
+	let kc = keychain_for(seed_name);
+	let builder = proof::ProofBuilder::new(&kc);
+	let (_, _, outs) = node
+		.chain
+		.unspent_outputs_by_pmmr_index(1, 100_000, None)
+		.unwrap();
+	let mut res = vec![];
+	for o in outs.iter() {
+		let commit = o.commitment();
+		if let Ok(Some((value, key_id, _))) = proof::rewind(kc.secp(), &builder, commit, None, o.proof) {
+			let (height, is_coinbase, mmr_index) = node.unspent_info(&commit).unwrap();
+			res.push(Owned {
+				commit,
+				value,
+				key_id,
+				height,
+				is_coinbase,
+				mmr_index,
+			});
+		}
+	}
+	res
+}
